@@ -848,7 +848,9 @@ class PGPUID(ParentRef):
         # and deepcopy does too much work
         uid = PGPUID()
         uid |= copy.copy(self._uid)
-        for sig in self._signatures:
+        # insort() places an item before any that compare equal, so feeding the signatures back to front
+        # reproduces the order of those made in the same second
+        for sig in reversed(self._signatures):
             uid |= copy.copy(sig)
         return uid
 
@@ -1085,7 +1087,7 @@ class PGPMessage(Armorable, PGPObject):
         msg._message = copy.copy(self._message)
         msg._mdc = copy.copy(self._mdc)
 
-        for sig in self._signatures:
+        for sig in reversed(self._signatures):
             msg |= copy.copy(sig)
 
         for sk in self._sessionkeys:
@@ -1719,13 +1721,14 @@ class PGPKey(Armorable, ParentRef, PGPObject):
         key = super(PGPKey, self).__copy__()
         key._key = copy.copy(self._key)
 
-        for uid in self._uids:
+        # back to front: see PGPUID.__copy__
+        for uid in reversed(self._uids):
             key |= copy.copy(uid)
 
         for id, subkey in self._children.items():
             key |= copy.copy(subkey)
 
-        for sig in self._signatures:
+        for sig in reversed(self._signatures):
             if sig.embedded:
                 # embedded signatures don't need to be explicitly copied
                 continue
